@@ -1,16 +1,113 @@
-//! Copies the two generator programs from /repo's working tree into OUT_DIR so that they can be
-//! `include!`d inside a module. The only edit is the one `include!` forces: crate-level *inner*
-//! doc comments (`//!`, `/*!`) and inner attributes (`#![…]`) at the top of a bin file are legal
-//! in a crate root but not in the middle of a module, so they are neutralised in place (same line
-//! count, so panic locations keep their line numbers). Everything else is byte-for-byte the
-//! repository's source.
-use std::path::Path;
+//! Copies the two generator programs (and the helper modules next to them) from /repo's working
+//! tree into OUT_DIR so that they can be `include!`d inside a module of the simulator — one copy
+//! per generator (`OUT_DIR/layout/…`, `OUT_DIR/likely/…`), because a few things in the text depend
+//! on where the code ends up. The edits are the ones that move forces, all in place and preserving
+//! line numbers (panic locations keep theirs):
+//!
+//! * crate-level *inner* doc comments (`//!`, `/*!`) and inner attributes (`#![…]`) at the top of
+//!   a bin file are legal in a crate root but not in the middle of a module: neutralised;
+//! * `#[global_allocator]` would make the program's allocator the simulator's: neutralised (the
+//!   static stays);
+//! * `crate::` / `$crate::` name the bin crate's root, which is now the module
+//!   `crate::gens::<generator>`: rewritten;
+//! * `include_str!("rel")` / `include_bytes!("rel")` resolve relative to the source file, which
+//!   has moved: the path is made absolute against the original location;
+//! * helper modules get the same shadow `std` (and the look-alike crates) the generator modules
+//!   get, prepended on their first line.
+//!
+//! Everything else is byte-for-byte the repository's source.
+use std::path::{Component, Path, PathBuf};
 
-fn neutralise(src: &str) -> String {
+const BIN: &str = "/repo/unic-langid-impl/src/bin";
+
+fn lexical(p: &Path) -> PathBuf {
+    let mut out = PathBuf::new();
+    for c in p.components() {
+        match c {
+            Component::CurDir => {}
+            Component::ParentDir => {
+                out.pop();
+            }
+            other => out.push(other.as_os_str()),
+        }
+    }
+    out
+}
+
+/// `include_str!("rel")` -> `include_str!("/abs/rel")` (string literal paths only)
+fn absolutise_includes(line: &str, orig_dir: &Path) -> String {
+    let mut out = String::with_capacity(line.len());
+    let mut rest = line;
+    loop {
+        let hit = ["include_str!", "include_bytes!", "include!"]
+            .iter()
+            .filter_map(|m| rest.find(m).map(|i| (i, *m)))
+            .min_by_key(|(i, _)| *i);
+        let Some((i, m)) = hit else {
+            out.push_str(rest);
+            return out;
+        };
+        let after = &rest[i + m.len()..];
+        let t = after.trim_start();
+        let ws = after.len() - t.len();
+        if let Some(inner) = t.strip_prefix('(') {
+            let t2 = inner.trim_start();
+            let ws2 = inner.len() - t2.len();
+            if let Some(lit) = t2.strip_prefix('"') {
+                if let Some(end) = lit.find('"') {
+                    let path = &lit[..end];
+                    if !path.starts_with('/') && !path.contains('\\') {
+                        let abs = lexical(&orig_dir.join(path));
+                        out.push_str(&rest[..i + m.len() + ws + 1 + ws2]);
+                        out.push('"');
+                        out.push_str(&abs.display().to_string());
+                        out.push('"');
+                        rest = &lit[end + 1..];
+                        continue;
+                    }
+                }
+            }
+        }
+        out.push_str(&rest[..i + m.len()]);
+        rest = after;
+    }
+}
+
+/// `crate::x` -> `crate::gens::<gen>::x`, `$crate::x` likewise (not inside identifiers)
+fn rehome_crate_paths(line: &str, gen: &str) -> String {
+    let target = format!("crate::gens::{}::", gen);
+    let mut out = String::with_capacity(line.len() + 16);
+    let b = line.as_bytes();
+    let mut i = 0;
+    while i < b.len() {
+        if line[i..].starts_with("crate::") {
+            let prev_ident = i > 0 && (b[i - 1].is_ascii_alphanumeric() || b[i - 1] == b'_');
+            if !prev_ident {
+                out.push_str(&target);
+                i += "crate::".len();
+                continue;
+            }
+        }
+        // (multi-byte characters are copied byte-wise: the text is only re-emitted)
+        let ch_len = line[i..].chars().next().map(|c| c.len_utf8()).unwrap_or(1);
+        out.push_str(&line[i..i + ch_len]);
+        i += ch_len;
+    }
+    out
+}
+
+fn neutralise(src: &str, gen: &str, orig_dir: &Path) -> String {
     let mut out = String::with_capacity(src.len());
     let mut in_block_doc = false;
     for line in src.split_inclusive('\n') {
         let t = line.trim_start();
+        let line2: String;
+        let line: &str = if t.starts_with("//") {
+            line
+        } else {
+            line2 = rehome_crate_paths(&absolutise_includes(line, orig_dir), gen);
+            &line2
+        };
         if in_block_doc {
             // inside a `/*! … */` crate doc block: keep as an ordinary block comment
             if line.contains("*/") {
@@ -41,13 +138,13 @@ fn neutralise(src: &str) -> String {
     out
 }
 
-const SHADOW: &str = "#[allow(unused_imports)] mod std { pub use crate::seams::shadow_std::*; pub use crate::seams::shadow_std::env; } #[allow(unused_imports, dead_code)] mod walkdir { pub use crate::seams::shim_walkdir::*; } #[allow(unused_imports, dead_code)] mod rayon { pub use crate::seams::shim_rayon::*; } ";
+const SHADOW: &str = "#[allow(unused_imports)] mod std { pub use crate::seams::shadow_std::*; pub use crate::seams::shadow_std::env; } #[allow(unused_imports, dead_code)] mod walkdir { pub use crate::seams::shim_walkdir::*; } #[allow(unused_imports, dead_code)] mod rayon { pub use crate::seams::shim_rayon::*; } #[allow(unused_imports)] use crate::seams::{LocalKeyCellExt as _, LocalKeyRefCellExt as _}; ";
 
 /// Helper modules next to the generators (`mod common;` -> src/bin/common.rs or
-/// src/bin/common/mod.rs): copied alongside, with the same shadow `std` the generator modules get
-/// (prepended on the first line, so line numbers stay), so that file I/O, hash containers and
-/// threads in a helper are behind the same seams.
-fn copy_helpers(from: &Path, to: &Path, top: bool) {
+/// src/bin/common/mod.rs, `#[path = "support/x.rs"] mod x;`): copied alongside, with the same
+/// shadow `std` the generator modules get (prepended on the first line, so line numbers stay), so
+/// that file I/O, hash containers and threads in a helper are behind the same seams.
+fn copy_helpers(from: &Path, to: &Path, top: bool, gen: &str) {
     let Ok(rd) = std::fs::read_dir(from) else { return };
     for e in rd.flatten() {
         let p = e.path();
@@ -59,10 +156,10 @@ fn copy_helpers(from: &Path, to: &Path, top: bool) {
         if p.is_dir() {
             let sub = to.join(&name);
             let _ = std::fs::create_dir_all(&sub);
-            copy_helpers(&p, &sub, false);
+            copy_helpers(&p, &sub, false, gen);
         } else if n.ends_with(".rs") {
             if let Ok(text) = std::fs::read_to_string(&p) {
-                let _ = std::fs::write(to.join(&name), format!("{}{}", SHADOW, neutralise(&text)));
+                let _ = std::fs::write(to.join(&name), format!("{}{}", SHADOW, neutralise(&text, gen, from)));
             }
         } else {
             let _ = std::fs::copy(&p, to.join(&name));
@@ -72,16 +169,21 @@ fn copy_helpers(from: &Path, to: &Path, top: bool) {
 
 fn main() {
     let out_dir = std::env::var("OUT_DIR").unwrap();
-    let bin = Path::new("/repo/unic-langid-impl/src/bin");
+    let bin = Path::new(BIN);
     // the whole directory: helper modules may come and go
     println!("cargo:rerun-if-changed={}", bin.display());
-    for name in ["generate_layout.rs", "generate_likelysubtags.rs"] {
+    // data embedded at compile time (include_str!/include_bytes!) must rebuild the simulator too
+    println!("cargo:rerun-if-changed=/repo/unic-langid-impl/data/likelySubtags.json");
+    for (gen, name) in [("layout", "generate_layout.rs"), ("likely", "generate_likelysubtags.rs")] {
+        let dir = Path::new(&out_dir).join(gen);
+        let _ = std::fs::remove_dir_all(&dir);
+        std::fs::create_dir_all(&dir).unwrap();
         let src = bin.join(name);
         println!("cargo:rerun-if-changed={}", src.display());
         let text = std::fs::read_to_string(&src).unwrap_or_else(|e| panic!("{}: {}", src.display(), e));
-        std::fs::write(Path::new(&out_dir).join(name), neutralise(&text)).unwrap();
+        std::fs::write(dir.join(name), neutralise(&text, gen, bin)).unwrap();
+        copy_helpers(bin, &dir, true, gen);
     }
-    copy_helpers(bin, Path::new(&out_dir), true);
     println!("cargo:rerun-if-changed=build.rs");
     // The generators are compiled inside this crate: compile-time crate paths
     // (`env!("CARGO_MANIFEST_DIR")`, also inside `concat!`/`include_str!`) must still name the
